@@ -39,6 +39,37 @@ impl TryFrom<Msg> for DCall {
     }
 }
 
+/// a second narrower type: plain (reply-less) messages, for `DerivedActorRef::cast` / `send_message`
+struct DFwd(u64);
+impl From<DFwd> for Msg {
+    fn from(d: DFwd) -> Msg {
+        Msg::Fwd(d.0)
+    }
+}
+impl TryFrom<Msg> for DFwd {
+    type Error = ();
+    fn try_from(m: Msg) -> Result<DFwd, ()> {
+        match m {
+            Msg::Fwd(v) => Ok(DFwd(v)),
+            _ => Err(()),
+        }
+    }
+}
+
+/// derived type over the WRONG message type (`InvalidActorType` must come back through the converter)
+struct DWrong;
+impl From<DWrong> for Wrong {
+    fn from(_: DWrong) -> Wrong {
+        Wrong::C
+    }
+}
+impl TryFrom<Wrong> for DWrong {
+    type Error = ();
+    fn try_from(_: Wrong) -> Result<DWrong, ()> {
+        Ok(DWrong)
+    }
+}
+
 /// a message type the callee does NOT accept (C02: wrong-type sends are rejected without
 /// disturbing the actor — through `cast`, `send_message` and `call` alike)
 enum Wrong {
@@ -52,6 +83,8 @@ enum Act {
     Drop,
     Keep,
     Detach,
+    /// `later p probe`: only look at `RpcReplyPort::is_closed` of a kept / detached / stashed port
+    Probe,
 }
 
 impl Act {
@@ -61,6 +94,7 @@ impl Act {
             Act::Drop => "drop".into(),
             Act::Keep => "keep".into(),
             Act::Detach => "detach".into(),
+            Act::Probe => "probe".into(),
         }
     }
     fn parse(s: &str) -> Option<Act> {
@@ -68,6 +102,7 @@ impl Act {
             "drop" => Some(Act::Drop),
             "keep" => Some(Act::Keep),
             "detach" => Some(Act::Detach),
+            "probe" => Some(Act::Probe),
             _ => s.strip_prefix("reply:").and_then(|v| v.parse().ok()).map(Act::Reply),
         }
     }
@@ -114,6 +149,16 @@ impl SupState {
             SupCmd::Use(a, p, act) => match self.stash.iter_mut().find(|(b, _)| *b == a) {
                 Some((_, SupervisionEvent::ActorTerminated(_, Some(boxed), _))) => match boxed.take::<CalleeState>() {
                     Ok(cs) => {
+                        if let Act::Probe = act {
+                            let r = cs.kept.lock().unwrap().get(&p).map(|port| port.is_closed());
+                            *boxed = BoxedState::new(cs);
+                            self.log.lock().unwrap().push(match r {
+                                Some(true) => "closed".into(),
+                                Some(false) => "open".into(),
+                                None => "noport".to_string(),
+                            });
+                            return;
+                        }
                         let port = cs.kept.lock().unwrap().remove(&p);
                         *boxed = BoxedState::new(cs);
                         match (port, act) {
@@ -203,24 +248,28 @@ impl Actor for Callee {
         let Some(act) = st.gate.recv().await else { return Ok(()) };
         match msg {
             Msg::Fwd(v) => st.log.lock().unwrap().push(format!("fwd {v}")),
-            Msg::Call(id, port) => match act {
-                Act::Reply(v) => {
-                    let r = port.send(v);
-                    st.log.lock().unwrap().push(format!("handled {id} {}", if r.is_ok() { "sent-ok" } else { "sent-err" }));
+            Msg::Call(id, port) => {
+                // the caller's timeout travels with the port (`RpcReplyPort::get_timeout`)
+                let t = port.get_timeout().map(|d| d.as_millis().to_string()).unwrap_or_else(|| "-".into());
+                match act {
+                    Act::Reply(v) => {
+                        let r = port.send(v);
+                        st.log.lock().unwrap().push(format!("handled {id} t={t} {}", if r.is_ok() { "sent-ok" } else { "sent-err" }));
+                    }
+                    Act::Drop | Act::Probe => {
+                        drop(port);
+                        st.log.lock().unwrap().push(format!("handled {id} t={t}"));
+                    }
+                    Act::Keep => {
+                        st.kept.lock().unwrap().insert(id, port);
+                        st.log.lock().unwrap().push(format!("handled {id} t={t}"));
+                    }
+                    Act::Detach => {
+                        st.detached.lock().unwrap().insert(id, port);
+                        st.log.lock().unwrap().push(format!("handled {id} t={t}"));
+                    }
                 }
-                Act::Drop => {
-                    drop(port);
-                    st.log.lock().unwrap().push(format!("handled {id}"));
-                }
-                Act::Keep => {
-                    st.kept.lock().unwrap().insert(id, port);
-                    st.log.lock().unwrap().push(format!("handled {id}"));
-                }
-                Act::Detach => {
-                    st.detached.lock().unwrap().insert(id, port);
-                    st.log.lock().unwrap().push(format!("handled {id}"));
-                }
-            },
+            }
         }
         Ok(())
     }
@@ -418,7 +467,7 @@ impl World {
         t.map(Duration::from_millis)
     }
 
-    async fn call(&mut self, a: usize, t: Option<u64>, via_macro: bool, via_derived: bool) -> String {
+    async fn call(&mut self, a: usize, t: Option<u64>, via_macro: u8, via_derived: bool) -> String {
         let id = self.next_port;
         self.next_port += 1;
         let Some(ah) = self.actors.get_mut(a) else { return "bad-actor".into() };
@@ -426,11 +475,14 @@ impl World {
         let accepted = Arc::new(AtomicU64::new(0));
         let acc2 = accepted.clone();
         let h = tokio::spawn(async move {
-            if via_macro {
-                // the `call!` / `call_t!` macros (ractor/src/macros.rs)
-                let res: Result<u64, ractor::RactorErr<Msg>> = match t {
-                    None => ractor::call!(r, Msg::Call, id),
-                    Some(ms) => ractor::call_t!(r, Msg::Call, ms, id),
+            if via_macro > 0 {
+                // the `call!` / `call_t!` macros (ractor/src/macros.rs): 1 = the arms with extra
+                // arguments preceding the reply port, 2 = the arms without (`$msg(tx)`: a closure builder)
+                let res: Result<u64, ractor::RactorErr<Msg>> = match (t, via_macro) {
+                    (None, 1) => ractor::call!(r, Msg::Call, id),
+                    (Some(ms), 1) => ractor::call_t!(r, Msg::Call, ms, id),
+                    (None, _) => ractor::call!(r, |tx| Msg::Call(id, tx)),
+                    (Some(ms), _) => ractor::call_t!(r, |tx| Msg::Call(id, tx), ms),
                 };
                 return match res {
                     Ok(v) => {
@@ -479,6 +531,55 @@ impl World {
             self.actors[a].queued += 1;
         }
         Self::fmt("ok", self.events().await)
+    }
+
+    /// a plain message carrying `v`, through one of the cast surfaces: `` = `ActorRef::cast`,
+    /// `f` = free fn `rpc::cast(&cell, msg)`, `m` = `cast!`, `d` = `DerivedActorRef::cast`,
+    /// `ds` = `DerivedActorRef::send_message` (on a CLONE of the derived ref, reached through
+    /// its `get_cell`/`Deref` for the liveness cross-check). A refused send must hand back the very message.
+    async fn cast(&mut self, a: usize, v: u64, flavour: &str) -> String {
+        let Some(ah) = self.actors.get_mut(a) else { return "bad-actor".into() };
+        let r = ah.r.clone();
+        let back = |e: ractor::MessagingErr<Msg>| match e {
+            ractor::MessagingErr::SendErr(Msg::Fwd(w)) if w == v => "sendErr".to_string(),
+            ractor::MessagingErr::SendErr(_) => "sendErr-wrong-message".into(),
+            ractor::MessagingErr::ChannelClosed => "channelClosed".into(),
+            ractor::MessagingErr::InvalidActorType => "invalid-type".into(),
+        };
+        let dback = |e: ractor::MessagingErr<DFwd>| match e {
+            ractor::MessagingErr::SendErr(DFwd(w)) if w == v => "sendErr".to_string(),
+            ractor::MessagingErr::SendErr(_) => "sendErr-wrong-message".into(),
+            ractor::MessagingErr::ChannelClosed => "channelClosed".into(),
+            ractor::MessagingErr::InvalidActorType => "invalid-type".into(),
+        };
+        let res: String = match flavour {
+            "f" => ractor::rpc::cast(&r.get_cell(), Msg::Fwd(v)).map(|_| "ok".to_string()).unwrap_or_else(back),
+            "m" => match ractor::cast!(r, Msg::Fwd(v)) {
+                Ok(()) => "ok".into(),
+                Err(ractor::RactorErr::Messaging(e)) => back(e),
+                Err(_) => "macro-err".into(),
+            },
+            "d" => {
+                let d: ractor::DerivedActorRef<DFwd> = r.get_derived();
+                d.cast(DFwd(v)).map(|_| "ok".to_string()).unwrap_or_else(dback)
+            }
+            "ds" => {
+                let d: ractor::DerivedActorRef<DFwd> = r.get_derived();
+                let d2 = d.clone();
+                drop(d);
+                // `get_cell` and the `Deref<Target = ActorCell>` must name the very actor
+                if d2.get_cell().get_id() != r.get_id() || d2.get_id() != r.get_id() {
+                    "derived-wrong-cell".into()
+                } else {
+                    d2.send_message(DFwd(v)).map(|_| "ok".to_string()).unwrap_or_else(dback)
+                }
+            }
+            _ => r.cast(Msg::Fwd(v)).map(|_| "ok".to_string()).unwrap_or_else(back),
+        };
+        if res == "ok" {
+            self.actors[a].queued += 1;
+        }
+        Self::fmt(&res, self.events().await)
     }
 
     async fn fcall(&mut self, a: usize, f: usize, t: Option<u64>, via_macro: bool) -> String {
@@ -604,6 +705,31 @@ impl World {
 
     async fn later(&mut self, p: u64, act: Act) -> String {
         let mut kept_port = None;
+        if let Act::Probe = act {
+            // look, do not touch: `RpcReplyPort::is_closed` = the caller has gone (timed out / abandoned)
+            let mut seen: Option<bool> = None;
+            if let Some(&a) = self.keeper.get(&p) {
+                if self.actors[a].alive {
+                    if let Some(m) = self.actors[a].kept.upgrade() {
+                        seen = m.lock().unwrap().get(&p).map(|port| port.is_closed());
+                    }
+                } else if let Some(u) = self.actors[a].sup {
+                    if self.sups[u].alive {
+                        let pre = self.sup_cmd(u, SupCmd::Use(a, p, act)).await;
+                        return Self::fmt(&pre, self.events().await);
+                    }
+                }
+            }
+            if seen.is_none() {
+                seen = self.detached.lock().unwrap().get(&p).map(|port| port.is_closed());
+            }
+            let pre = match seen {
+                Some(true) => "closed",
+                Some(false) => "open",
+                None => "noport",
+            };
+            return Self::fmt(pre, self.events().await);
+        }
         if let Some(&a) = self.keeper.get(&p) {
             if self.actors[a].alive {
                 // the actor itself uses a port it kept in its state
@@ -643,6 +769,15 @@ impl World {
                 Ok(()) => "accepted".into(),
                 Err(_) => "other-err".into(),
             },
+            3 => {
+                // a DerivedActorRef over the wrong-typed ref: the converter must hand InvalidActorType through
+                let d: ractor::DerivedActorRef<DWrong> = wrong.get_derived();
+                match d.cast(DWrong) {
+                    Err(ractor::MessagingErr::InvalidActorType) => "invalid-type".to_string(),
+                    Ok(()) => "accepted".into(),
+                    Err(_) => "other-err".into(),
+                }
+            }
             1 => match cell.send_message(Wrong::C) {
                 Err(ractor::MessagingErr::InvalidActorType) => "invalid-type".to_string(),
                 Ok(()) => "accepted".into(),
@@ -746,9 +881,12 @@ impl World {
             ["suphandle", u, what] => self.suphandle(u.parse().unwrap_or(99), *what == "stash").await,
             ["supdrop", u, a] => self.supdrop(u.parse().unwrap_or(99), a.parse().unwrap_or(usize::MAX)).await,
             ["supexit", u] => self.supexit(u.parse().unwrap_or(99)).await,
-            ["call", a, tt] => self.call(a.parse().unwrap_or(99), t(tt), false, false).await,
-            ["call", a, tt, "m"] => self.call(a.parse().unwrap_or(99), t(tt), true, false).await,
-            ["call", a, tt, "d"] => self.call(a.parse().unwrap_or(99), t(tt), false, true).await,
+            ["call", a, tt] => self.call(a.parse().unwrap_or(99), t(tt), 0, false).await,
+            ["call", a, tt, "m"] => self.call(a.parse().unwrap_or(99), t(tt), 1, false).await,
+            ["call", a, tt, "m0"] => self.call(a.parse().unwrap_or(99), t(tt), 2, false).await,
+            ["call", a, tt, "d"] => self.call(a.parse().unwrap_or(99), t(tt), 0, true).await,
+            ["cast", a, v] => self.cast(a.parse().unwrap_or(99), v.parse().unwrap_or(0), "").await,
+            ["cast", a, v, fl] => self.cast(a.parse().unwrap_or(99), v.parse().unwrap_or(0), fl).await,
             ["fcall", a, f, tt] => self.fcall(a.parse().unwrap_or(99), f.parse().unwrap_or(99), t(tt), false).await,
             ["fcall", a, f, tt, "m"] => self.fcall(a.parse().unwrap_or(99), f.parse().unwrap_or(99), t(tt), true).await,
             ["mcall", targets, tt] => {
@@ -766,6 +904,7 @@ impl World {
             ["badcast", a] => self.bad(a.parse().unwrap_or(99), 0).await,
             ["badsend", a] => self.bad(a.parse().unwrap_or(99), 1).await,
             ["badcall", a] => self.bad(a.parse().unwrap_or(99), 2).await,
+            ["baddcast", a] => self.bad(a.parse().unwrap_or(99), 3).await,
             ["exit", a] => self.exit(a.parse().unwrap_or(99)).await,
             ["stop", a, act] => match Act::parse(act) {
                 Some(act) => self.stop(a.parse().unwrap_or(99), act).await,
@@ -838,12 +977,17 @@ async fn gen_case(log: &mut Log, st: &mut Stats, rng: &mut Rng, len: u64) {
             117 => format!("spawnl {}", rng.below(nsup as u64)),
             118 => format!("handle {a} keep"),
             119 => if rng.chance(1, 2) { format!("supexit {}", rng.below(nsup as u64)) } else { format!("handle {a} keep") },
-            0..=29 => format!("call {a} {}{}", gen_timeout(rng), *rng.pick(&["", "", " m", " d"])),
+            0..=26 => format!("call {a} {}{}", gen_timeout(rng), *rng.pick(&["", "", " m", " m0", " d"])),
+            27..=29 => format!("cast {a} {}{}", rng.below(1000), *rng.pick(&["", " f", " m", " d", " ds"])),
             30..=59 => format!("handle {a} {}", gen_act(rng).show()),
             60..=68 => {
                 // prefer ports that exist
                 let p = if w.next_port > 0 { rng.below(w.next_port) } else { 0 };
-                let act = if rng.chance(3, 4) { Act::Reply(rng.below(100_000)) } else { Act::Drop };
+                let act = match rng.below(8) {
+                    0..=4 => Act::Reply(rng.below(100_000)),
+                    5 => Act::Drop,
+                    _ => Act::Probe,
+                };
                 format!("later {p} {}", act.show())
             }
             69..=75 => {
@@ -853,12 +997,18 @@ async fn gen_case(log: &mut Log, st: &mut Stats, rng: &mut Rng, len: u64) {
             }
             76..=83 => format!("fcall {a} {} {}{}", rng.below(na), gen_timeout(rng), if rng.chance(1, 2) { " m" } else { "" }),
             84..=91 => format!("advance {}", rng.pick(&[1u64, 1, 2, 3, 7])),
-            92 => format!("{} {a}", rng.pick(&["badcast", "badsend", "badcall"])),
+            92 => format!("{} {a}", rng.pick(&["badcast", "badsend", "badcall", "baddcast"])),
             93..=94 => format!("exit {a}"),
             95..=97 => format!("stop {a} {}", gen_act(rng).show()),
             _ => format!("drain {a}"),
         };
         st.bump(line.split(' ').next().unwrap());
+        if line.starts_with("call ") || line.starts_with("cast ") || line.starts_with("fcall ") {
+            // which API surface issued it (function / macro arm / derived ref)
+            let w: Vec<&str> = line.split(' ').collect();
+            let n_plain = if w[0] == "fcall" { 4 } else { 3 };
+            st.bump(&format!("surface_{}_{}", w[0], if w.len() > n_plain { w[n_plain] } else { "fn" }));
+        }
         let obs = w.exec(&line).await;
         if obs.contains("senderError") {
             st.bump("obs_senderError");
@@ -871,6 +1021,19 @@ async fn gen_case(log: &mut Log, st: &mut Stats, rng: &mut Rng, len: u64) {
         }
         if obs.contains("mdone") {
             st.bump("obs_mdone");
+            // one multi_call whose members ended differently (reply / drop / timeout mixed)
+            if let Some(m) = obs.split(';').find(|e| e.contains("mdone")) {
+                let kinds = ["success", "senderError", "timeout"].iter().filter(|k| m.contains(**k)).count();
+                if kinds >= 2 {
+                    st.bump("obs_mdone_mixed");
+                }
+                if kinds == 3 {
+                    st.bump("obs_mdone_all_three");
+                }
+            }
+        }
+        if obs.starts_with("closed") || obs.starts_with("open") {
+            st.bump(&format!("obs_probe_{}", obs.split(' ').next().unwrap()));
         }
         if obs.contains("fdone") {
             st.bump("obs_fdone");
